@@ -128,3 +128,29 @@ package tags
 //@ requires args: ctx != nil
 //@ assigns nothing
 //@ ensures one: (result1 == nil) != (result0 == nil)
+
+// ---- for / tablerow render closure: the else branch renders exactly when nothing is selected
+
+//@ func tags.makeIterator
+//@ props C11 C18 C02 C01
+//@ ensures nilcase: value == nil ==> result == nil
+
+//@ func tags.loopTagCompiler$1
+//@ expect func(w io.Writer, ctx render.Context) error
+//@ props C11 C01
+//@ requires args: ctx != nil && *stmt != nil
+//@ ghost decided Bool = false
+//@ ghost nothing Bool = false
+//@ ghost elseRendered Bool = false
+//@ ghost looped Bool = false
+//@ at call makeIterator #1: decided = result == nil
+//@ at call makeIterator #1: nothing = result == nil
+//@ at call Len #1: decided = true
+//@ at call Len #1: nothing = result == 0
+//@ at call RenderBlock #1: elseRendered = true
+//@ at call RenderBlock #1 assert elseClause: arg1 == node.Clauses[0] && node.Clauses[0].Name == "else"
+//@ at call render #1: looped = true
+//@ at call render #1 assert selected: arg1.Len() > 0 || len(node.Clauses) != 1 || node.Clauses[0].Name != "else"
+//@ ensures elseWhenEmpty: decided && nothing && len(node.Clauses) == 1 && node.Clauses[0].Name == "else" ==> elseRendered && !looped
+//@ ensures elseOnlyWhenEmpty: elseRendered ==> nothing
+//@ ensures loopOtherwise: decided && !nothing && len(node.Clauses) <= 1 ==> looped && !elseRendered
